@@ -94,13 +94,24 @@ Usable(c, pts) == LET k == UKind(c, pts) IN SelectSeq(pts, LAMBDA p : p.k = k)
 (* Ref: messages, in the shape the driver logs them (EncOut in exec.go).     *)
 (* e = [g, t, k, acc]: group, stamp time, context kind, points that count.   *)
 
+(* Tags.  A group is named by the value of its tag g; group "dd" has the two *)
+(* group tags d=x,g=dd.  A point carries the group tags if p.pg, its own tag  *)
+(* h unless "-", its own tag r unless "-".  EVERY emitted message carries the *)
+(* group's tags (and belongs to the group: group ID, dimensions); a point     *)
+(* that IS a selected input point (first/last/min/max/percentile, top/bottom) *)
+(* carries its own tags in addition, whether or not it repeated the group's.  *)
+TwoTag == {"dd"}
+GTags(e) == IF e.g \in TwoTag THEN [d |-> "x", g |-> e.g] ELSE [g |-> e.g]
+GroupStr(g) == IF g \in TwoTag THEN "d=x,g=" \o g ELSE "g=" \o g
+DimsStr(g) == IF g \in TwoTag THEN "d,g" ELSE "g"
+OwnTags(p) == (IF p.h # "-" THEN ("h" :> p.h) ELSE <<>>) @@ (IF p.r # "-" THEN ("r" :> p.r) ELSE <<>>)
+PTags(e, p) == GTags(e) @@ OwnTags(p)
+
 PointMsg(e, t, tags, fields) ==
-    [kind |-> "p", name |-> "m", group |-> "g=" \o e.g, dims |-> "g", t |-> t, tags |-> tags, fields |-> fields]
+    [kind |-> "p", name |-> "m", group |-> GroupStr(e.g), dims |-> DimsStr(e.g), t |-> t, tags |-> tags, fields |-> fields]
 BatchMsg(e, pts) ==
-    [kind |-> "b", name |-> "m", group |-> "g=" \o e.g, dims |-> "g", t |-> e.t, tags |-> [g |-> e.g], pts |-> pts]
+    [kind |-> "b", name |-> "m", group |-> GroupStr(e.g), dims |-> DimsStr(e.g), t |-> e.t, tags |-> GTags(e), pts |-> pts]
 BPt(c, t, tags, k, v) == [t |-> t, tags |-> tags, fields |-> (c.as :> ValRec(k, v))]
-GTags(e) == [g |-> e.g]
-PTags(e, p) == [g |-> e.g, h |-> p.h]
 SelFields(c, p) == (c.as :> ValRec(p.k, p.v)) @@ ("i" :> [k |-> "int", v |-> p.i])
 
 (* --- aggregates: one field named as(), group tags only, stamped e.t ------- *)
@@ -206,6 +217,33 @@ PickRed(c, e) ==
       [] c.fn = "distinct" -> <<DistinctPick(c, e)>>
       [] c.fn \in {"top", "bottom"} -> <<TopPick(c, e)>>
 
+(* --- extreme magnitudes ---------------------------------------------------- *)
+(* A field value is p.s * B + p.v for a large base B the model never needs to  *)
+(* know (1e9, 1e12, 2^53, 4e12; s = 0 in the ordinary phases).  The definitions*)
+(* are linear/translation covariant, so a result is Mult * B + (the definition *)
+(* over the residuals v): the driver splits every observed result exactly (big *)
+(* rationals) into m * B + r, logs m, round(60 r) as the value and the distance*)
+(* of 60 r from that integer in ulps of the result (dev); the residual part is *)
+(* checked by the ordinary definitions, the multiplier and the ulp bound here. *)
+RECURSIVE SumS(_)
+SumS(ps) == IF ps = <<>> THEN 0 ELSE Head(ps).s + SumS(Tail(ps))
+UniformS(ps) == \A i, j \in DOMAIN ps : ps[i].s = ps[j].s
+(* accuracy HEAD's algorithms achieve on the explored classes, measured (see notes): *)
+(* fixed here so that it is not loosened later                                      *)
+UlpTol(fn) == CASE fn \in {"sum", "spread", "difference", "cumulativeSum", "count", "elapsed"} -> 0
+                [] fn \in {"mean", "movingAverage"} -> 2
+                [] fn = "stddev" -> 2      \* unit: one ulp of the result + ulp(B)^2 on the variance, see mag.go
+                [] OTHER -> 0
+AggMult(c, acc) ==
+    CASE c.fn = "sum" -> SumS(acc)
+      [] c.fn = "mean" -> IF acc = <<>> THEN 0 ELSE acc[1].s
+      [] OTHER -> 0
+(* which inputs the magnitude phase may contain: mixed multipliers only where the definition stays linear *)
+MagEnvOK(c, acc) ==
+    \/ \A j \in DOMAIN acc : acc[j].s = 0
+    \/ c.fn \in {"sum", "cumulativeSum", "difference", "count", "elapsed"}
+    \/ (c.fn \in {"mean", "stddev", "spread", "movingAverage"} /\ UniformS(acc))
+
 (* --- streaming transforms: value emitted after the last point of acc ------- *)
 RECURSIVE Dedup(_)
 Dedup(ps) ==      \* difference() ignores a point that does not advance time
@@ -213,18 +251,20 @@ Dedup(ps) ==      \* difference() ignores a point that does not advance time
     ELSE LET d == Dedup(Front(ps))  x == Last(ps) IN
          IF d # <<>> /\ Last(d).t = x.t THEN d ELSE Append(d, x)
 
-TransVal(c, k, acc) ==     \* <<>> or <<[t, k, v]>>
+TransVal(c, k, acc) ==     \* <<>> or <<[t, k, v, m]>>  (m: multiplier of the magnitude base)
     LET n == Len(acc) IN
     IF n = 0 THEN <<>> ELSE
     CASE c.fn = "elapsed" ->
-            IF n < 2 THEN <<>> ELSE <<[t |-> acc[n].t, k |-> "int", v |-> TruncDiv(acc[n].t - acc[n-1].t, c.arg)]>>
+            IF n < 2 THEN <<>> ELSE <<[t |-> acc[n].t, k |-> "int", v |-> TruncDiv(acc[n].t - acc[n-1].t, c.arg), m |-> 0]>>
       [] c.fn = "difference" ->
             LET d == Dedup(acc)  m == Len(Dedup(acc)) IN
-            IF m >= 2 /\ m > Len(Dedup(Front(acc))) THEN <<[t |-> d[m].t, k |-> k, v |-> d[m].v - d[m-1].v]>> ELSE <<>>
-      [] c.fn = "cumulativeSum" -> <<[t |-> acc[n].t, k |-> k, v |-> SumV(acc)]>>
+            IF m >= 2 /\ m > Len(Dedup(Front(acc)))
+            THEN <<[t |-> d[m].t, k |-> k, v |-> d[m].v - d[m-1].v, m |-> d[m].s - d[m-1].s]>> ELSE <<>>
+      [] c.fn = "cumulativeSum" -> <<[t |-> acc[n].t, k |-> k, v |-> SumV(acc), m |-> SumS(acc)]>>
       [] c.fn = "movingAverage" ->
             IF n < c.arg THEN <<>>
-            ELSE <<[t |-> acc[n].t, k |-> "float", v |-> (F(k) * SumV(SubSeq(acc, n - c.arg + 1, n))) \div c.arg]>>
+            ELSE <<[t |-> acc[n].t, k |-> "float", v |-> (F(k) * SumV(SubSeq(acc, n - c.arg + 1, n))) \div c.arg,
+                    m |-> acc[n].s]>>
 
 RECURSIVE TransAll(_, _, _)
 TransAll(c, k, acc) == IF acc = <<>> THEN <<>> ELSE TransAll(c, k, Front(acc)) \o TransVal(c, k, acc)
@@ -243,6 +283,15 @@ ExpPick(c, x) ==
     CASE x.typ = "red" -> PickRed(c, x)
       [] x.typ = "tb"  -> <<TransBatchMsg(c, x)>>
       [] x.typ = "tp"  -> <<TransPointMsg(c, x)>>
+
+(* magnitude part of a logged message: g = [m, dev] (point) or [pts |-> <<[m, dev], ..>>] (batch) *)
+MagOK(c, x, g) ==
+    CASE x.typ = "red" ->
+            IF c.fn \in Aggs THEN g.m = AggMult(c, x.acc) /\ g.dev <= UlpTol(c.fn)
+            ELSE TRUE                      \* selectors and batches of selected points: not in the magnitude phase
+      [] x.typ = "tb" -> /\ Len(g.pts) = Len(x.pts)
+                         /\ \A j \in DOMAIN x.pts : g.pts[j].m = x.pts[j].m /\ g.pts[j].dev <= UlpTol(c.fn)
+      [] x.typ = "tp" -> g.m = x.m /\ g.dev <= UlpTol(c.fn)
 
 -----------------------------------------------------------------------------
 (* Ref: what a whole batch / run / stream point must produce.                *)
@@ -265,7 +314,7 @@ RefTransPoint(c, g, all) ==
     LET k == UKind(c, all)  us == Usable(c, all) IN
     IF k = "nil" \/ Last(all).k # k THEN <<>>
     ELSE LET v == TransVal(c, k, us) IN
-         IF v = <<>> THEN <<>> ELSE <<[typ |-> "tp", g |-> g, t |-> v[1].t, k |-> v[1].k, v |-> v[1].v]>>
+         IF v = <<>> THEN <<>> ELSE <<[typ |-> "tp", g |-> g, t |-> v[1].t, k |-> v[1].k, v |-> v[1].v, m |-> v[1].m]>>
 
 -----------------------------------------------------------------------------
 (* Impl: the lifecycle of influxql.go as state transformers.                  *)
@@ -333,7 +382,7 @@ PointS(c, st, g, p) ==
          ELSE LET s2 == Aggregate(r.st, g, p)
                   v == TransVal(c, s2.grp[g].rc.k, s2.grp[g].rc.acc) IN
               [st |-> s2, outs |-> IF v = <<>> THEN <<>>
-                                   ELSE <<[typ |-> "tp", g |-> g, t |-> v[1].t, k |-> v[1].k, v |-> v[1].v]>>]
+                                   ELSE <<[typ |-> "tp", g |-> g, t |-> v[1].t, k |-> v[1].k, v |-> v[1].v, m |-> v[1].m]>>]
     ELSE IF p.t = gs.btime THEN [st |-> AggPointS(c, s0, g, p), outs |-> <<>>]
     ELSE LET outs == IF gs.rc # Nil THEN <<Red(g, gs.btime, gs.rc.k, gs.rc.acc)>> ELSE <<>>
              s1 == [s0 EXCEPT !.grp[g].btime = p.t, !.grp[g].rc = Nil] IN
@@ -360,7 +409,11 @@ Init ==
     /\ st = St0 /\ open = "-" /\ cur = Cur0
     /\ emitted = <<>> /\ refEmitted = <<>> /\ nb = 0
 
-MkPt(t, k, v, n) == [t |-> t, k |-> k, v |-> IF k = "float" THEN S * v ELSE IF k = "bool" THEN (IF v > 0 THEN 1 ELSE 0) ELSE v, h |-> IF n % 2 = 1 THEN "p" ELSE "q", i |-> n]
+(* the n-th point of a batch/run: value, tag shape by position (own tag h p/q; every third point does not  *)
+(* repeat the group tags; every fourth has a second own tag)                                                  *)
+MkPt(t, k, v, n) == [t |-> t, k |-> k, v |-> IF k = "float" THEN S * v ELSE IF k = "bool" THEN (IF v > 0 THEN 1 ELSE 0) ELSE v,
+                     h |-> IF n % 5 = 0 THEN "-" ELSE IF n % 2 = 1 THEN "p" ELSE "q", i |-> n,
+                     r |-> IF n % 4 = 0 THEN "z" ELSE "-", pg |-> n % 3 # 0, s |-> 0]
 
 Begin(g) ==
     /\ mode = "batch" /\ open = "-" /\ nb < MaxBatches
